@@ -37,6 +37,8 @@ ASSUMPTIONS = [
     "handed over by ONE shared event (disable_events of the one, enable_events of the other; a second event hands "
     "back); the harness never enables both twins together by other means (that is a configuration error which the "
     "platform refuses) and posts the hand-over only during a live ball as the first request of its instant",
+    "flippers without activation_switch (event-driven only) own no rule; they are judged by the request, lifecycle "
+    "and coil clauses only",
     "control events are not listed as both enable and disable event of one device; no delayed (event|ms) control events",
     "request/lifecycle clauses are evaluated only at instants strictly later (virtual time) than the last request, "
     "control event or rule change, i.e. after everything scheduled for that instant has run; the rule-table/enabled "
@@ -95,6 +97,10 @@ def _gen_cfg(rng, tier):
              "ow": rng.random() < 0.35, "share": None}
         if i > 0 and rng.random() < 0.3:
             f["share"] = rng.randrange(i)       # same cabinet button as an earlier flipper (upper/lower flipper)
+        # a flipper without activation_switch: no hardware rules at all, driven by sw_flip/sw_release events only
+        f["nosw"] = rng.random() < 0.22
+        if f["nosw"]:
+            f.update({"eos": False, "repulse": False, "nc": False, "share": None})
         flippers.append(f)
     autofires = []
     for i in range(na):
@@ -150,9 +156,11 @@ def _gen_ops(rng, tier, cfg):
             ops.append(["adv", rng.choice(ADV)])
         elif k < 0.40:
             if rng.random() < nf / (nf + na):
-                ops.append(["dev", "f", rng.randrange(nf), rng.choice(["enable", "disable", "enable", "disable",
-                                                                         "sw_flip", "sw_flip", "sw_release"]),
-                            rng.choice(["call", "event"])])
+                fi = rng.randrange(nf)
+                acts = ["enable", "disable", "enable", "disable", "sw_flip", "sw_flip", "sw_release"]
+                if cfg["flippers"][fi].get("nosw"):
+                    acts += ["sw_flip", "sw_flip", "sw_flip", "sw_release"]     # its only way to flip
+                ops.append(["dev", "f", fi, rng.choice(acts), rng.choice(["call", "event"])])
             else:
                 i = rng.randrange(na)
                 if cfg["autofires"][i].get("twin") and rng.random() < 0.6:
@@ -223,6 +231,8 @@ def _names(cfg):
     devs = []
     for i, f in enumerate(cfg["flippers"]):
         btn = "s_f%d" % (f["share"] if f.get("share") is not None else i)
+        if f.get("nosw"):
+            btn = None
         d = {"kind": "flipper", "name": "f%d" % i, "idx": i, "btn": btn, "main": "c_f%d_m" % i,
              "hold": "c_f%d_h" % i if f["hold"] else None, "eos": "s_f%d_eos" % i if f["eos"] else None,
              "repulse": bool(f["repulse"]), "cfg": f}
@@ -234,6 +244,8 @@ def _names(cfg):
         d["keys"] = keys
         d["n_rules"] = 2 if f["hold"] else 1
         d["psu"] = [(btn, d["main"])] + ([(btn, d["hold"])] if f["hold"] else [])
+        if btn is None:
+            d["keys"], d["n_rules"], d["psu"] = [], 0, []
         d["en_ev"] = {"ball_started", d["name"] + "_on"}
         d["dis_ev"] = {"ball_will_end", "service_mode_entered", d["name"] + "_off"}
         d["twin_of"] = None
@@ -278,15 +290,17 @@ def _build_config(cfg):
                 coils[d["main"]]["default_hold_power"] = 0.25
             else:
                 coils[d["hold"]] = {"number": None, "allow_enable": True, "default_pulse_ms": 12}
-            if d["btn"] not in switches:
+            if d["btn"] and d["btn"] not in switches:
                 switches[d["btn"]] = {"number": None}
                 if f["nc"]:
                     switches[d["btn"]]["type"] = "NC"
-            fc = {"main_coil": d["main"], "activation_switch": d["btn"],
+            fc = {"main_coil": d["main"],
                   "enable_events": ", ".join(sorted(d["en_ev"])), "disable_events": ", ".join(sorted(d["dis_ev"])),
                   "sw_flip_events": d["name"] + "_flip", "sw_release_events": d["name"] + "_rel",
                   "include_in_ball_search": bool(f["bs"]), "ball_search_hold_time": "%dms" % f["hold_ms"],
                   "ball_search_order": 100 + d["idx"]}
+            if d["btn"]:
+                fc["activation_switch"] = d["btn"]
             if f["hold"]:
                 fc["hold_coil"] = d["hold"]
             if f["eos"]:
@@ -691,7 +705,7 @@ def _run(case, mon):
             eos, psu = sw_handler_counts()
             for d in devs:
                 en = bool(d["dev"]._enabled)
-                if d["kind"] == "flipper":
+                if d["kind"] == "flipper" and d["btn"]:
                     k = (m.switches[d["btn"]], m.coils[d["main"]].hw_driver)
                     n = eos.get(k, 0)
                     exp = 4 if (en and d["repulse"]) else 0
@@ -870,12 +884,16 @@ def _run(case, mon):
             elif kind == "sw":
                 d = flips[op[2] % len(flips)]
                 name = d["eos"] if (op[3] == "eos" and d["eos"]) else d["btn"]
+                if not name:
+                    return          # switch-less flipper
                 shape.append("s" + op[3][0] + str(op[4]))
                 touch()
                 set_switch(name, op[4])
             elif kind == "repulse":
                 # player holds the button, flipper reaches EOS, ball knocks it down (EOS opens)
                 d = flips[op[1] % len(flips)]
+                if not d["btn"]:
+                    return          # switch-less flipper
                 shape.append("R")
                 touch()
                 set_switch(d["btn"], 1)
@@ -1048,6 +1066,8 @@ def _run(case, mon):
                 sws = [s for s, _ in d["keys"]]
                 if any(s in busy_sw for s in sws):
                     continue
+                if d["kind"] == "flipper" and not d["btn"]:
+                    continue        # nothing to press
                 probed.append(d)
                 if d["kind"] == "flipper":
                     set_switch(d["btn"], 0)
@@ -1099,7 +1119,8 @@ def _run(case, mon):
     obs["sw_repulses"] = sum(1 for v in mon.drv.values() if v[1] == "_repulse_on_eos_open")
     nontrivial = (mon.n_set > 0 and mon.n_clear > 0 and clauses["rules_match"] > 0 and
                   obs["off_with_prior_enable"] > 0)
-    variants = "".join(("F" + ("h" if f["hold"] else "s") + ("e" if f["eos"] else "") + ("r" if f["repulse"] else ""))
+    variants = "".join(("F" + ("h" if f["hold"] else "s") + ("e" if f["eos"] else "") + ("r" if f["repulse"] else "") +
+                        ("n" if f.get("nosw") else ""))
                        for f in cfg["flippers"]) + "".join(
         (a["kind"][0].upper() + ("t" if a["timeout"] else "") + ("d" if a["delay"] else "") +
          ("v" if a["reverse"] else "") + ("w" if a.get("twin") else "")) for a in cfg["autofires"])
